@@ -121,7 +121,7 @@ def generate(seed, tier="quick"):
 
         proc = c02nd.generate_process(r)
         proc["margins"] = proc["margins"][:2]  # 2-d: the refined 3-d grids are too large for a quick check
-        proc["grid"]["n"] = 4
+        proc["grid"] = {"kind": "fixed", "h": proc["grid"]["h"], "n": 4}
         return {"world_seed": seed, "process": proc, "variant": "copula", "max_level": r.choice([1, 1, 2]),
                 "n": r.choice([3, 6]), "product": {"kind": "sum", "maturity": r.choice([0.5, 1.0])}, "rmse": 1.0,
                 "seed": r.choice([None, 3])}
@@ -193,6 +193,7 @@ def execute(wd, sc):
             V.append({"sig": sig, "oracle": sig.split("|")[0], "detail": detail})
 
     levels = {}  # level -> snapshot of the grid (axis, origin) the level's object works on
+    frozen = []  # (level, path manager list, index, coarse deterministic path, fine deterministic path) at creation
 
     script_u = {"u": None}
 
@@ -238,6 +239,7 @@ def execute(wd, sc):
                     {"level": lvl, "coarse": pair[1].tolist(), "previous_fine": before["det_fine"].tolist()})
             if not np.allclose(pair[0], fine_now, rtol=1e-12, atol=1e-12 * sc_):
                 add("C03.c|fine deterministic path of the pair is not the one of the fine chain|" + cls, {"level": lvl})
+            frozen.append((lvl, path_managers, len(path_managers) - 1, before["det_fine"].copy(), fine_now.copy()))
         # ---- b: telescoping sum over all fine states --------------------------------------------------------
         mass = cp.fine_process.model.mass
 
@@ -363,6 +365,18 @@ def execute(wd, sc):
         errors.append({"kind": type(e).__name__, "msg": str(e)[:140], "where": traceback.extract_tb(e.__traceback__)[-1].name})
         wd.probes["c03.run_raised"] += 1
     wd.script = None
+    # ---- c (history): the drifts frozen when a level was built are still the same after the later levels ------
+    ts_ = np.array([0.0, 1.0, 2.5])
+    for (lvl, pms, idx, det_c, det_f) in frozen:
+        try:
+            pair = np.array(pms[idx].deterministic_path(ts_), dtype=float)
+        except Exception:
+            continue
+        wd.probes["c03.frozen_drift_rechecked"] += 1
+        sc_ = 1.0 + np.max(np.abs(det_c))
+        if not np.allclose(pair[1], det_c, rtol=1e-12, atol=1e-12 * sc_) or not np.allclose(pair[0], det_f, rtol=1e-12, atol=1e-12 * sc_):
+            add(f"C03.c|deterministic paths of a level changed after later levels were built|method={sc['process']['method']}",
+                {"level": lvl, "coarse_now": pair[1].tolist(), "coarse_at_creation": det_c.tolist()})
     # ---- a: every coupled jump of every path ----------------------------------------------------------------
     for (lvl, incs, coarse_cum) in wd.c03["slices"]:
         if lvl not in levels or not incs:
@@ -502,6 +516,7 @@ def execute_nd(wd, sc):
             pair = np.array(path_managers[-1].deterministic_path(ts), dtype=float)
             if not np.allclose(pair[1], before["det_fine"], rtol=1e-12, atol=1e-12):
                 add("C03.c|coarse deterministic path is not the fine deterministic path of the previous level|" + cls, {"level": lvl})
+            frozen_nd.append((lvl, path_managers, len(path_managers) - 1, pair.copy()))
         # ---- b: the implementation's projection probabilities, then the telescoping sum -------------------
         mass = cp.model.mass  # the mass function the coupling itself uses
         mass_f = cp.fine_process.model.mass
@@ -608,6 +623,7 @@ def execute_nd(wd, sc):
             ctx.nprs.set_state(saved)
             ctx.fp_np = __import__("simkit.world", fromlist=["fp_np"]).fp_np(ctx.nprs)
 
+    frozen_nd = []
     wd.c03 = {"transitions": [], "slices": [], "hook": lambda *a: None, "hook_nd": hook_nd, "slices_nd": []}
     try:
         spec = sc["process"]
@@ -635,6 +651,16 @@ def execute_nd(wd, sc):
         errors.append({"kind": type(e).__name__, "msg": str(e)[:140], "where": traceback.extract_tb(e.__traceback__)[-1].name})
         wd.probes["c03.run_raised"] += 1
     wd.script = None
+    ts_ = np.array([0.0, 1.0, 2.5])
+    for (lvl, pms, idx, pair0) in frozen_nd:
+        try:
+            pair = np.array(pms[idx].deterministic_path(ts_), dtype=float)
+        except Exception:
+            continue
+        wd.probes["c03.frozen_drift_rechecked"] += 1
+        if not np.allclose(pair, pair0, rtol=1e-12, atol=1e-12):
+            add("C03.c|deterministic paths of a level changed after later levels were built|" + cls,
+                {"level": lvl, "now": pair.tolist(), "at_creation": pair0.tolist()})
     # ---- a: coupled jumps --------------------------------------------------------------------------------
     for (lvl, incs, cums) in wd.c03["slices_nd"]:
         if lvl not in levels:
